@@ -463,10 +463,17 @@ class Context:
 
     def floor(self, rule, n, what=''):
         """Instance floor: fewer than ``n`` instances of ``rule`` means the anchor vanished."""
-        got = self.rule_counts.get(rule, [0, 0])[0]
-        if got < n:
-            raise AnalysisError('rule %s found %d instance(s), floor is %d (%s): anchor vanished or idiom '
-                                'not recognised' % (rule, got, n, what))
+        self.floors = getattr(self, 'floors', [])
+        self.floors.append((rule, n, what))
+
+    def check_floors(self):
+        """evaluated at the end of a run, and only when nothing was positively identified as violated: a finding
+        usually removes the instances that depended on the broken construct."""
+        for (rule, n, what) in getattr(self, 'floors', []):
+            got = self.rule_counts.get(rule, [0, 0])[0]
+            if got < n:
+                raise AnalysisError('rule %s found %d instance(s), floor is %d (%s): anchor vanished or idiom '
+                                    'not recognised' % (rule, got, n, what))
 
 
 def load_known_findings():
@@ -484,6 +491,8 @@ def finish(ctx, level_explanation, assumptions, not_decided):
     new, listed = [], []
     for f in ctx.findings:
         (listed if f.key in known_keys else new).append(f)
+    if not new:
+        ctx.check_floors()
     evdir = os.environ.get('SGZ_EVIDENCE_DIR') or os.path.join(VERIF, 'evidence')
     os.makedirs(os.path.join(evdir, 'replay'), exist_ok=True)
     if not getattr(ctx, 'only', None):
